@@ -124,27 +124,22 @@ func ruleC15Scan(cx *Ctx) {
 func ruleIterContinue(cx *Ctx) {
 	const rule = "C15.itercont"
 	cx.R.Rule(rule, 1, "the function cache.nodes hands to hashmap.Range returns false only when the consumer asked to stop: every value it returns is the constant true or the result of calling yield - skipping a dead or expired node continues the iteration")
-	fn := cx.need(rule, "", "cache", "nodes")
+	fn := cx.P.Func("", "cache", "nodes")
 	rng := cx.need(rule, hmPkg, "Map", "Range")
-	if fn == nil || rng == nil {
+	hmF := cx.needField(rule, "", "cache", "hashmap")
+	if rng == nil || hmF == nil {
 		return
 	}
+	if fn == nil {
+		fn = rng // only used to name the obligation when the node iterator has no function of its own any more
+	}
 	n := 0
-	// the iterator body: a closure of nodes, or a method it returns as a method value
-	var bodies []*ssa.Function
-	withClosures(fn, func(f *ssa.Function) {
-		bodies = append(bodies, f)
-		allInstrs(f, func(in ssa.Instruction) {
-			if mc, ok := in.(*ssa.MakeClosure); ok {
-				if bm := boundMethod(mc); bm != nil && len(origin(bm).Blocks) > 0 {
-					withClosures(origin(bm), func(g *ssa.Function) { bodies = append(bodies, g) })
-				}
-			}
-		})
-	})
+	// every walk over the main table, wherever it is written (the node iterator, a callback-style forEach helper, a
+	// visitor method): the callback handed to Range
+	bodies := cx.P.FuncsOfPkg("")
 	for _, f := range bodies {
 		allInstrs(f, func(in ssa.Instruction) {
-			if !isCallTo(in, rng) {
+			if !isCallTo(in, rng) || !sameField(recvField(in), hmF) {
 				return
 			}
 			a := callArgs(in)
